@@ -236,6 +236,41 @@ def Tree.iterate (t : Tree β ι) : List ι :=
   let es := if t.built then (match t.root with | some r => r.leaves | none => []) else t.pending
   (es.filter (fun e => !e.deleted)).map (·.item)
 
+/-! ### `items()` : the C++ forward iterator `TemplateSTRtreeImpl::Iterator` over the first `numItems` slots
+
+The iterator is the pair `(m_iter, m_end)`; it is modelled by the remaining range `[m_iter, m_end)`. -/
+
+/-- `Iterator::skipDeleted()`: `while (m_iter != m_end && m_iter->isDeleted()) m_iter++;` -/
+def skipDeleted : List (Entry β ι) → List (Entry β ι)
+  | [] => []
+  | e :: r => if e.deleted then skipDeleted r else e :: r
+
+/-- `Items::begin()`: the constructor of `Iterator` calls `skipDeleted()` -/
+def itBegin (leaves : List (Entry β ι)) : List (Entry β ι) := skipDeleted leaves
+
+/-- `Iterator::operator++`: `m_iter++; skipDeleted();` -/
+def itNext : List (Entry β ι) → List (Entry β ι)
+  | [] => []
+  | _ :: r => skipDeleted r
+
+/-- `Iterator::operator*`: `m_iter->getItem()` (`none`: dereferencing the end iterator) -/
+def itDeref : List (Entry β ι) → Option ι
+  | [] => none
+  | e :: _ => some e.item
+
+/-- `for (auto it = items.begin(); it != items.end(); ++it) f(*it);` — `it != end` compares `m_iter` with
+`m_end`, i.e. tests the remaining range for emptiness; `fuel` bounds the iterations -/
+def itemsLoop : Nat → List (Entry β ι) → List ι
+  | 0, _ => []
+  | _ + 1, [] => []
+  | f + 1, e :: r => e.item :: itemsLoop f (skipDeleted r)
+
+/-- `items()` (which builds the tree first) followed by a range-for over the result -/
+def Tree.items (c : Cfg β ι) (t : Tree β ι) : Tree β ι × List ι :=
+  let t' := t.build c
+  let leaves := if t'.built then (match t'.root with | some r => r.leaves | none => []) else []
+  (t', itemsLoop leaves.length (itBegin leaves))
+
 /-- abstraction: the live entries -/
 def Tree.live (t : Tree β ι) : List (Entry β ι) :=
   (if t.built then (match t.root with | some r => r.leaves | none => []) else t.pending).filter (fun e => !e.deleted)
